@@ -43,7 +43,9 @@ impl Property for C14 {
     fn run(&self, s: &Streams) -> CaseOut {
         let mut out = CaseOut::new();
         let built = gen_case(&mut Ch::new(&s[0]), &virtual_cfg());
-        let text = built_text(&built);
+        let rendered = crate::print::canonical(&built.prog);
+        let row_lines = rendered.row_line.clone();
+        let text = rendered.text;
         let mut dch = Ch::new(&s[2]);
         let mut spec = gen_spec(
             &mut dch,
@@ -131,7 +133,8 @@ impl Property for C14 {
                         a2.outputs.retain(|o| !o.is_virtual);
                         let mut b2 = b.clone();
                         b2.outputs.retain(|o| !o.is_virtual);
-                        if row_diff(&a2, &b2, non_virtual).is_some() {
+                        if row_diff(&a2, &b2, non_virtual).is_some() || row_lines.get(a.row_id) != Some(&b.line) {
+                            // a different source row, or different values: not this property's
                             out.class("rows-diverged");
                             break;
                         }
